@@ -3,8 +3,8 @@ import itertools, re
 from vcore import Case, Harness
 
 ID = 'C15'
-GEN = ['Hex', 'TraceState', 'B3', 'Baggage']
-LEAN_TARGETS = ['OtelVerif.Props.C15']
+GEN = ['Hex', 'TraceState', 'B3', 'Baggage', 'TabBaggage', 'TabKv']
+LEAN_TARGETS = ['OtelVerif.Props.C15', 'OtelVerif.Props.TabBaggage', 'OtelVerif.Props.TabKv']
 THEOREMS = ['Otel.KvIdx.trim3_spec', 'Otel.KvIdx.trim1_spec', 'Otel.KvIdx.splitMember_spec', 'Otel.KvIdx.tokens_eq'] + ['Otel.C15.' + t for t in (
     'gen_baggage', 'urlEncodeByte_spec', 'urlDecode_eq', 'decode_never_oob', 'urlDecode_urlEncode', 'pctDecode_pctEncode',
     'set_eq', 'delete_eq', 'set_replaces', 'set_invalid_copy', 'delete_removes', 'set_delete_pure',
@@ -13,7 +13,8 @@ THEOREMS = ['Otel.KvIdx.trim3_spec', 'Otel.KvIdx.trim1_spec', 'Otel.KvIdx.splitM
     'fromHeader_toHeader_trailing_space_witness', 'fromHeader_toHeader_comma_in_metadata_witness',
     'toHeader_eq_nil_iff', 'baggage_extract_eq', 'extract_empty_leaves_context', 'extract_installs_parsed', 'baggage_inject_eq',
     'baggage_propagator_roundtrip', 'composite_inject_eq_foldl', 'composite_extract_eq_foldl', 'composite_empty_identity',
-    'composite_append', 'builtin_extract_ok', 'composite_builtin_never_faults')]
+    'composite_append', 'builtin_extract_ok', 'composite_builtin_never_faults')] + ['Otel.Tab.' + t for t in (
+    'tab_bgEncode', 'tab_bgDecode1', 'tab_bgDecodePct1', 'tab_bgValidKey1', 'tab_bgValidValue1', 'tab_bgDecodePct_digits', 'tab_bgDecodePct_cross', 'tab_trimDrops', 'tab_trimShort', 'tab_trim3Short', 'tab_kvTokSep', 'tab_kvTokShort')]
 HARNESSES = [Harness('f_c15', ['harness/f_c15.cc'])]
 H = 'f_c15'
 RULE = ('Set/Delete/Get/ToHeader/round-trip sequences over a small key pool with printable keys and values (spaces, = , % + ; in keys, '
